@@ -140,12 +140,16 @@ def run(ctx):
                     mism.append(dict(what=f"class of node for ({loader!r}, protocol={p!r}): model {mcls or m.get('e')}, implementation {icls or ierr[0]}",
                                      schema=st, protocol=p))
                 # oracle: the class is the one registered for the smallest protocol not below p
-                if isinstance(p, int) and not isinstance(p, bool) and 0 <= p <= PROTOCOL:
+                if isinstance(p, int) and not isinstance(p, bool):
                     want = None
-                    for q in range(p, PROTOCOL + 1):
-                        if (loader, q) in NODE_TYPE_MAPPING:
-                            want = NODE_TYPE_MAPPING[(loader, q)]
-                            break
+                    if 0 <= p <= PROTOCOL:
+                        for q in range(p, PROTOCOL + 1):
+                            if (loader, q) in NODE_TYPE_MAPPING:
+                                want = NODE_TYPE_MAPPING[(loader, q)]
+                                break
+                    else:
+                        # a protocol number outside the known range: nothing is registered for it, the current loader applies
+                        want = NODE_TYPE_MAPPING.get((loader, p)) or NODE_TYPE_MAPPING.get((loader, PROTOCOL))
                     if want is None:
                         if ierr is None or ierr[0] != "TypeError" or loader not in ierr[1]:
                             ofails.append((f"unregistered-loader: ({loader!r}, {p}) is not registered but get_tree gave {icls or ierr}",
@@ -154,6 +158,9 @@ def run(ctx):
                         wn = f"{want.__module__}.{want.__qualname__}"
                         if icls is not None and icls != wn:
                             ofails.append((f"wrong-loader: ({loader!r}, protocol {p}) built {icls}, the loader registered for the smallest protocol >= {p} is {wn}",
+                                           dict(kind="archive", schema=dict(st, protocol=p), members=sorted(members))))
+                        elif icls is None and ierr and ierr[0] == "TypeError" and "find loader" in ierr[1]:
+                            ofails.append((f"registered-loader-not-found: ({loader!r}, protocol {p}) has a registered loader ({wn}) but get_tree raised {ierr[1][:100]!r}",
                                            dict(kind="archive", schema=dict(st, protocol=p), members=sorted(members))))
     samples.append(dict(loaders=loaders, protocol_values=[repr(p) for p in protos]))
 
